@@ -21,6 +21,7 @@ type c03Script struct {
 	startDB int // database selected when the stream starts (resumed), -1: the stream begins with SELECT
 	splits  []int
 	delays  []time.Duration
+	trickle bool
 }
 
 type c03Outcome struct {
@@ -82,6 +83,16 @@ func runIncrScript(c incrConf, sc c03Script) c03Outcome {
 		}
 		break
 	}
+	// bounded time: every forwarded command is applied soon after it was delivered, also while the stream keeps trickling
+	if out.sig == "" {
+		for i := range want {
+			d := in.deliveredAt(want[i].end)
+			if !d.IsZero() && obs[i].at.Sub(d) > 2500*time.Millisecond {
+				out.sig, out.msg = "late", fmt.Sprintf("command %s was applied %v after it had been delivered to the syncer (flush tick is 500 ms)", want[i], obs[i].at.Sub(d).Round(time.Millisecond))
+				break
+			}
+		}
+	}
 	return out
 }
 
@@ -105,7 +116,7 @@ func c03Sig(c incrConf, sc c03Script, o c03Outcome) string {
 	return sig
 }
 
-func drawC03Script(t *rapid.T, c incrConf) c03Script {
+func drawC03Script(t *rapid.T, c incrConf, trickleBatch bool) c03Script {
 	sc := c03Script{startDB: -1}
 	o := streamOpts{maxCmds: 25, startSelect: true, dbs: []int{0, 1, 2, 5, 11}}
 	// a stream continued after a resume starts inside the recorded database; checkpoints are only
@@ -119,8 +130,26 @@ func drawC03Script(t *rapid.T, c incrConf) c03Script {
 	if c.resume && len(okDBs) > 0 && rapid.Bool().Draw(t, "resumedStream") {
 		o.startSelect = false
 		sc.startDB = rapid.SampledFrom(okDBs).Draw(t, "startDB")
+		// a checkpoint can fall inside a source transaction: the resumed stream then starts mid-block
+		o.startInTx = rapid.IntRange(0, 2).Draw(t, "startInTx") == 0
+	}
+	o.selectInTx = !c.resume
+	trickle := trickleBatch && rapid.Bool().Draw(t, "trickle")
+	if trickle {
+		// no barriers (SELECT/MULTI/EXEC flush what is cached): only the ticker can flush a trickle
+		o.minCmds, o.maxCmds, o.noSelect, o.noMulti, o.startInTx = 8, 11, true, true, false
 	}
 	sc.st = drawStream(t, o)
+	if trickle {
+		// a steady trickle: one command every 300-450 ms, below the count/size thresholds
+		n := len(sc.st.cmds)
+		for i := 0; i < n-1; i++ {
+			sc.splits = append(sc.splits, int(sc.st.cmds[i].end))
+			sc.delays = append(sc.delays, time.Duration(rapid.IntRange(300, 450).Draw(t, "gap"))*time.Millisecond)
+		}
+		sc.trickle = true
+		return sc
+	}
 	sc.splits, sc.delays = drawSplits(t, len(sc.st.bytes), 1200*time.Millisecond)
 	return sc
 }
@@ -128,12 +157,17 @@ func drawC03Script(t *rapid.T, c incrConf) c03Script {
 func c03Batch(t *rapid.T) {
 	resume := rapid.IntRange(0, 2).Draw(t, "resume") == 0
 	c := drawIncrConf(t, resume)
+	// trickle batches: thresholds high enough that only the 500 ms ticker can flush
+	trickleBatch := rapid.IntRange(0, 2).Draw(t, "trickleBatch") == 0
+	if trickleBatch {
+		c.senderCount, c.senderSize = 1024, 104857600
+	}
 	c.apply()
 	defer resetIncrConf()
 	k := rapid.IntRange(8, 24).Draw(t, "k")
 	scripts := make([]c03Script, k)
 	for i := range scripts {
-		scripts[i] = drawC03Script(t, c)
+		scripts[i] = drawC03Script(t, c, trickleBatch)
 	}
 	outs := make([]c03Outcome, k)
 	var wg sync.WaitGroup
@@ -157,6 +191,9 @@ func c03Batch(t *rapid.T) {
 		}
 		nt := nsel >= 2 && nfilt >= 1 && o.flushes >= 2
 		cls := []string{"stream", fmt.Sprintf("resume=%v", c.resume), fmt.Sprintf("target.db=%v", c.targetDB != -1)}
+		if sc.trickle {
+			cls = append(cls, "trickle")
+		}
 		if o.flushes >= 2 {
 			cls = append(cls, "multi-flush")
 		}
